@@ -41,6 +41,8 @@ def run(ctx):
             joinlike.rule_result(ctx, M, u, "C05.POS")
             joinlike.rule_cnt(ctx, M, u, "C05.CNT")
             rule_err(ctx, M, u)
+            flow.rule_integrity(ctx, u.bi, "C05.POS", u.where, ("Ready(Ok)",), "the Ok output")
+            flow.rule_integrity(ctx, u.bi, "C05.OK", u.where, ("Ready(Err)",), "the returned error")
             if u.container in ("array", "vec"):
                 joinlike.rule_zero(ctx, M, u, "C05.ZERO", ("Ready(Ok)",))
         joinlike.rule_zero_tuple0(ctx, M, "try_join", "C05.ZERO", "Ready(Ok)")
